@@ -994,10 +994,16 @@ class Crystal(object):
         """
         # Start with a list of possible vectors; add those that define the BZ...
         BZG = []
-        for nv in itertools.product(range(-3, 4), repeat = self.dim):
-            if all(n == 0 for n in nv): continue
-            vec = np.dot(self.lattice, nv)
-            if self.inBZ(vec, BZG, threshold=0): BZG.append(np.dot(self.reciplatt, nv))
+        # candidates: a vector defining a face of the BZ is no longer than sum_i |b_i| (twice the bound
+        # on the covering radius), and |n_i| <= |G| |a_i| / (2 pi) by Cauchy-Schwarz
+        Gmax = sum(np.sqrt(np.dot(self.reciplatt[:, i], self.reciplatt[:, i])) for i in range(self.dim))
+        nmax = [int(Gmax * np.sqrt(self.metric[i, i]) / (2. * np.pi)) + 1 for i in range(self.dim)]
+        nvs = np.array(list(itertools.product(*[range(-n, n + 1) for n in nmax])))
+        vecs = np.dot(nvs, self.reciplatt.T)
+        v2 = np.sum(vecs * vecs, axis=1)
+        keep = (v2 > 0) & (v2 <= Gmax * Gmax * (1 + 1e-8))
+        for vec in vecs[keep][np.argsort(v2[keep], kind='stable')]:  # shortest first
+            if self.inBZ(vec, BZG, threshold=0): BZG.append(vec)
         # ... and use a list comprehension to only keep those that still remain
         return np.array([0.5 * vec for vec in BZG if self.inBZ(vec, BZG, threshold=0)])
 
@@ -1558,9 +1564,13 @@ class Crystal(object):
         Gmin = min(np.dot(G, G) for G in self.BZG)
         for k in kptfull:
             if np.dot(k, k) >= Gmin:
-                for G in self.BZG:
-                    if np.dot(k, G) > np.dot(G, G):
-                        k -= 2. * G
+                moved = True
+                while moved:  # every shift shortens k, so this terminates inside the BZ
+                    moved = False
+                    for G in self.BZG:
+                        if np.dot(k, G) > np.dot(G, G) * (1. + 1e-12):
+                            k -= 2. * G
+                            moved = True
         return kptfull
 
     def reducekptmesh(self, kptfull, threshold=None):
